@@ -85,7 +85,7 @@ func main() {
 			exit(2)
 		}
 		var recs []core.Rec
-		if rp.Isolated {
+		if rp.Isolated && os.Getenv("VERIF_NOPANIC") == "" {
 			recs, _ = core.RunIsolated([]core.Case{rp.Case}, 0)
 		} else {
 			recs = core.ExecCase(rp.Case)
